@@ -408,7 +408,8 @@ theorem rest_after_handover : RestWhereUnspecified (hoCs.map (fun c => (initiali
 theorem nv_handover_state :
     initializeFrom hoX (.Cap 2 0 (1 / 2) none) = .Cap 2 0 (1 / 2) (some (vpre0 cX 2 0)) ∧
     initializeFrom hoX (.Ind 2 0 1 2 none []) = .Ind 2 0 1 2 (some (pre0 (cX (.br 1)).pre)) [] := by
-  simpa using handover_state hoX cX ho_startsFrom 2 0 1 (1 / 2) 2 none none []
+  -- (`C02.handover_state` was dropped after the audit as definitional; the fact itself:)
+  simp [initializeFrom, vpre0_of_startsFrom ho_startsFrom, ho_startsFrom _]
 
 /-! ### RL circuit `V1 1 0 step 6 ; R1 1 2 3 ; L1 2 0 2 1` : i_L = 2 − e^{−3t/2} from i_L(0⁻) = 1 -/
 
@@ -462,7 +463,7 @@ theorem nv_ic_start_flux :
     (by decide +kernel)
 example : val0plus (cplX (.br 1)).post = 2 ∧ pre0 (cplX (.br 1)).pre = 1 ∧ val0plus (cplX (.br 2)).post = -1 := by decide +kernel
 
-/-- the injectivity hypothesis `hinj` of `continuity_of_inj` is FALSE for the rational stand-in `E = 1`
+/-- the injectivity hypothesis `hinj` of the former `continuity_of_inj` (dropped) is FALSE for the rational stand-in `E = 1`
     (the theorem is vacuous there); it holds for `Real.exp` (below) -/
 theorem vacuous_continuity_of_inj_E1 :
     ¬ ∀ f : ExpPoly ℚ, (∀ s, NonPole f s → L E1 f s = 0) → FormalZero f := by
@@ -477,7 +478,7 @@ theorem nv_formal_pointwise :
   formal_pointwise E1 rlTcs rlX rl_lawsTFormal 1
 
 theorem nv_ilt_causal : Causal (ilt (⟨[1], [(5, 0, 1), (-2, -1, 1)], 2⟩ : PF ℚ)) :=
-  ilt_causal _ (by norm_num)
+  ilt_causal_partial _ (by norm_num)
 
 theorem exPfs_T : ∀ ix, ∀ pf ∈ exPfs ix, (0 : ℚ) ≤ pf.T := by
   intro ix pf hpf
@@ -491,7 +492,7 @@ theorem exPfs_T : ∀ ix, ∀ pf ∈ exPfs ix, (0 : ℚ) ≤ pf.T := by
 
 theorem nv_causal_response :
     Causal (response (exPfs (.node 2))) ∧ ∀ t, t < 0 → evalAt E1 (response (exPfs (.node 2))) t = 0 :=
-  causal_response E1 exPfs exPfs_T (.node 2)
+  causal_response_partial E1 exPfs exPfs_T (.node 2)
 
 /-! ### witnesses for Props/C02Inj.lean (K = ℚ, stand-in E = 1, no delays) -/
 
@@ -659,9 +660,10 @@ theorem w_law (s : ℝ) (hs : NonPole (subP wI (capCurrentT wX 2 0 (1 / 2) none)
   field_simp
   ring
 
+/-- (`C02.continuity_of_inj` was dropped after the audit; its content over ℝ is `ic_start` + `L_injective_real`) -/
 theorem nv_continuity_of_inj : val0plus (vpost wX 2 0) = vpre0 wX 2 0 :=
-  continuity_of_inj Real.exp wX 2 0 (1 / 2) wI (by norm_num)
-    (fun f h => L_injective_real f ∅ (fun s _ hs => h s hs)) w_law w_noDelta (by simp [impulse0, wI, coefOf, sameKey])
+  ic_start wX 2 0 (1 / 2) none wI (by norm_num)
+    (L_injective_real _ ∅ (fun s _ hs => w_law s hs)) w_noDelta (by simp [impulse0, wI, coefOf, sameKey])
 example : vpre0 wX 2 0 = 5 := by simp [vpre0, voltT, wX, pre0, Signal.zero]
 
 /-- formal zero over ℝ obtained from the transform-level law by `L_injective_real` -/
